@@ -9,10 +9,17 @@ import (
 
 type Prop struct{}
 
-func (Prop) ID() string                   { return "C20" }
-func (Prop) Level() string                { return "model_checking" }
-func (Prop) Configs(tier string) []string { return []string{"c-race"} }
-func (Prop) SelfTest() error              { return nil }
+func (Prop) ID() string    { return "C20" }
+func (Prop) Level() string { return "model_checking" }
+func (Prop) Configs(tier string) []string {
+	return []string{"c-race", "c-race-nopclmul", "c-race-noaes", "c-race-noavx2", "c-race-aesni1"}
+}
+
+// tierDependent lists the scenarios whose shared objects are implemented differently per CPU dispatch tier
+// (SM4 block / AEAD / mode objects, SM3 KDF lanes); only these are repeated on the non-default tiers.
+var tierDependent = map[string]bool{"S8-sm4-shared-block-aead": true, "S12-sm4-shared-block-modes": true, "S9-sm3-constructors": true, "S11-sm9-encrypt-user-key": true}
+
+func (Prop) SelfTest() error { return nil }
 func (Prop) Rule() string {
 	return "E5: stateless DFS over thread schedules of 2-3 goroutines on a freshly created shared object, real library code, one thread running at a time under a " +
 		"cooperative scheduler whose hand-offs are invisible to the Go race detector (so every explored schedule, including the serial ones, is checked by TSan for " +
@@ -28,6 +35,7 @@ func (Prop) Assumptions() []string {
 		"data-race freedom is judged by the Go race detector (happens-before); hardware reorderings beyond the Go memory model are out of reach",
 		"the sync shim (hooks/verifsync) reproduces the happens-before edges of sync.Once / Mutex / RWMutex; other primitives are passed through",
 		"GOMAXPROCS=1; package-level singletons are re-armed between executions only in the S6 scenarios",
+		"all scenarios run on the default dispatch tier; the scenarios whose shared objects differ per tier (SM4 block/AEAD/modes, SM3 KDF, SM9 decrypt) are repeated with pclmulqdq off, aes off, avx2 off and single-block AES-NI",
 	}
 }
 
@@ -35,6 +43,9 @@ func (Prop) Run(c *engine.Ctx) {
 	quick := c.Quick()
 	for _, sc := range allScenarios() {
 		sc := sc
+		if c.Config != "c-race" && !tierDependent[sc.name] {
+			continue
+		}
 		sb := 3
 		if !quick {
 			sb = 6
